@@ -208,6 +208,10 @@ fn main() {
         println!("FNTIE-UNAVAILABLE BackoffFn {}", w.replace('\n', " "));
         let _ = std::fs::remove_file(g.dir.join("BackoffFn.lean"));
     }
+    if let Err(w) = gen_codec_fn(&repo, &mut g) {
+        println!("FNTIE-UNAVAILABLE CodecFn {}", w.replace('\n', " "));
+        let _ = std::fs::remove_file(g.dir.join("CodecFn.lean"));
+    }
     println!("generated: {}", g.written.join(" "));
     if failed { std::process::exit(3); }
 }
@@ -1574,6 +1578,11 @@ struct FnTr {
     fns: BTreeMap<String, (Vec<(String, String)>, String)>,
     self_ty: Option<String>,
     self_reads: std::cell::RefCell<BTreeMap<String, String>>,
+    /// the function returns `Result<_, _>` and threads a `&mut BytesMut` named like this: `Ok(v)` is `Rs.Out.ok v`, every way
+    /// out of the function pairs the value with the buffer's current contents, operations that can panic are matches
+    buf: Option<String>,
+    /// external functions taken as parameters of the generated definition (path -> Lean name)
+    externs: BTreeMap<String, String>,
 }
 
 impl FnTr {
@@ -1663,6 +1672,7 @@ impl FnTr {
                 let name = m.method.to_string();
                 match (name.as_str(), args.as_slice()) {
                     ("as_nanos", []) if tr == "Duration" => Ok((r, "u128".into())),
+                    ("len", []) if tr == "BytesMut" => Ok((format!("{r}.length"), "usize".into())),
                     ("checked_mul", [(a, _)]) => { let b = int_bits(&tr).ok_or("checked_mul on a non-integer")?; Ok((format!("(Rs.checkedMul {b} {r} {a})"), format!("Option<{tr}>"))) }
                     ("checked_pow", [(a, _)]) => { let b = int_bits(&tr).ok_or("checked_pow on a non-integer")?; Ok((format!("(Rs.checkedPow {b} {r} {a})"), format!("Option<{tr}>"))) }
                     ("checked_add", [(a, _)]) => { let b = int_bits(&tr).ok_or("checked_add on a non-integer")?; Ok((format!("(Rs.checkedAdd {b} {r} {a})"), format!("Option<{tr}>"))) }
@@ -1675,10 +1685,21 @@ impl FnTr {
             }
             Expr::Call(c) => {
                 let segs: Vec<String> = match &*c.func { Expr::Path(p) => p.path.segments.iter().map(|s| s.ident.to_string()).collect(), _ => return Err("call of a non-path".into()) };
-                let args: FR<Vec<(String, String)>> = c.args.iter().map(|a| self.expr(a, env)).collect();
+                let is_ext = self.externs.contains_key(&segs.join("::"));
+                let args: FR<Vec<(String, String)>> = if is_ext { Ok(vec![]) } else { c.args.iter().map(|a| self.expr(a, env)).collect() };
                 let args = args?;
                 let seg: Vec<&str> = segs.iter().map(|s| s.as_str()).collect();
+                if let Some(lname) = self.externs.get(&segs.join("::")) {
+                    // an external function (a parameter of the generated definition); a single tuple argument is spread
+                    let spread: Vec<String> = match c.args.first() {
+                        Some(Expr::Tuple(t)) if c.args.len() == 1 => { let r: FR<Vec<(String, String)>> = t.elems.iter().map(|a| self.expr(a, env)).collect(); r?.into_iter().map(|x| x.0).collect() }
+                        _ => args.iter().map(|x| x.0.clone()).collect(),
+                    };
+                    return Ok((format!("({lname} {})", spread.join(" ")), "Result<extern>".into()));
+                }
                 match (seg.as_slice(), args.as_slice()) {
+                    (["Ok"], [(a, t)]) if self.buf.is_some() => Ok((format!("(Rs.Out.ok {a})"), format!("Result<{t}>"))),
+                    (["u64", "from_be_bytes"], [(a, _)]) => Ok((format!("(Rs.fromBe {a})"), "u64".into())),
                     (["Some"], [(a, t)]) | (["Ok"], [(a, t)]) => Ok((format!("(some {a})"), format!("Option<{t}>"))),
                     ([t, "try_from"], [(a, _)]) if int_bits(t).is_some() => Ok((format!("(Rs.tryFrom {} {a})", int_bits(t).unwrap()), format!("Option<{t}>"))),
                     (["Duration", "new"], [(a, _), (b, _)]) => Ok((format!("(Rs.durationNew {a} {b})"), "Duration".into())),
@@ -1702,6 +1723,23 @@ impl FnTr {
             }
             Expr::Match(m) => self.mtch(m, env, &|body, env2| self.expr(body, env2)),
             Expr::Block(b) => self.stmts(&b.block.stmts, env, &|v| v.to_string()),
+            Expr::Tuple(t) if t.elems.is_empty() => Ok(("()".into(), "()".into())),
+            // `Err(E::Variant(..))?` as a value: leave with that error (named after the innermost constructor)
+            Expr::Try(t) => {
+                if let Expr::Call(c) = &*t.expr {
+                    if let Expr::Path(p) = &*c.func {
+                        if p.path.is_ident("Err") && c.args.len() == 1 && self.buf.is_some() {
+                            let name = match &c.args[0] {
+                                Expr::Call(ic) => match &*ic.func { Expr::Path(ip) => ip.path.segments.last().unwrap().ident.to_string(), _ => "error".into() },
+                                Expr::Path(ip) => ip.path.segments.last().unwrap().ident.to_string(),
+                                _ => "error".into(),
+                            };
+                            return Ok((format!("(Rs.Out.err \"{name}\")"), "Result<?>".into()));
+                        }
+                    }
+                }
+                Err("`?` outside the subset".into())
+            }
             Expr::Struct(s) => {
                 let name = s.path.segments.last().unwrap().ident.to_string();
                 if !self.structs.contains_key(&name) || s.rest.is_some() { return Err(format!("struct literal {name}")); }
@@ -1796,6 +1834,41 @@ impl FnTr {
                 };
                 let init = l.init.as_ref().ok_or("let without initialiser")?;
                 if init.diverge.is_some() { return Err("let-else".into()); }
+                if let Some(buf) = &self.buf {
+                    // let x = [0u8; N];
+                    if let Expr::Repeat(r) = &*init.expr {
+                        let (n, _) = self.expr(&r.len, env)?;
+                        let (z, _) = self.expr(&r.expr, env)?;
+                        let mut e2 = env.clone();
+                        e2.insert(name.clone(), "[u8]".into());
+                        let (k, t) = self.stmts(rest, &e2, ret)?;
+                        return Ok((format!("(let {name} := List.replicate {n} (UInt8.ofNat {z});\n  {k})"), t));
+                    }
+                    // let x = call(..)?;
+                    if let Expr::Try(tr) = &*init.expr {
+                        let (v, _) = self.expr(&tr.expr, env)?;
+                        let mut e2 = env.clone();
+                        e2.insert(name.clone(), "?".into());
+                        let (k, t) = self.stmts(rest, &e2, ret)?;
+                        return Ok((format!("(match {v} with\n  | .err e => .err e\n  | .panic p => .panic p\n  | .ok {name} => {k})"), t));
+                    }
+                    // let x = buf.get_u8();  /  let x = buf.split_to(n);
+                    if let Expr::MethodCall(m) = &*init.expr {
+                        if matches!(&*m.receiver, Expr::Path(p) if p.path.is_ident(buf)) {
+                            let args: FR<Vec<(String, String)>> = m.args.iter().map(|a| self.expr(a, env)).collect();
+                            let args = args?;
+                            let (op, ty) = match (m.method.to_string().as_str(), args.len()) {
+                                ("get_u8", 0) => (format!("Rs.getU8 {buf}"), "u8"),
+                                ("split_to", 1) => (format!("Rs.splitTo {buf} {}", args[0].0), "BytesMut"),
+                                _ => return Err(format!("buffer method {}", m.method)),
+                            };
+                            let mut e2 = env.clone();
+                            e2.insert(name.clone(), ty.into());
+                            let (k, t) = self.stmts(rest, &e2, ret)?;
+                            return Ok((format!("(match {op} with\n  | none => .panic \"{}\"\n  | some ({name}, {buf}) => {k})", m.method), t));
+                        }
+                    }
+                }
                 if let Expr::Match(m) = &*init.expr {
                     if m.arms.iter().any(|a| Self::returned(&a.body).is_some()) {
                         // arms either give the bound value or leave the function
@@ -1840,7 +1913,54 @@ impl FnTr {
                     let (v, t) = self.expr(e, env)?;
                     return Ok((ret(&v), t));
                 }
+                if let Some(buf) = &self.buf {
+                    match e {
+                        // call(..)?;
+                        Expr::Try(tr) => {
+                            let (v, _) = self.expr(&tr.expr, env)?;
+                            let (k, t) = self.stmts(rest, env, ret)?;
+                            return Ok((format!("(match {v} with\n  | .err e => .err e\n  | .panic p => .panic p\n  | .ok _ => {k})"), t));
+                        }
+                        Expr::MethodCall(m) => {
+                            let recv = match &*m.receiver { Expr::Path(p) => p.path.get_ident().map(|i| i.to_string()), _ => None }.ok_or("method statement")?;
+                            let name = m.method.to_string();
+                            // buf.reserve(n): capacity only, the contents do not change
+                            if recv == *buf && name == "reserve" { return self.stmts(rest, env, ret); }
+                            if recv == *buf && name == "advance" && m.args.len() == 1 {
+                                let (n, _) = self.expr(&m.args[0], env)?;
+                                let (k, t) = self.stmts(rest, env, ret)?;
+                                return Ok((format!("(match Rs.advance {buf} {n} with\n  | none => .panic \"advance\"\n  | some {buf} => {k})"), t));
+                            }
+                            // x.copy_from_slice(&buf[..n])
+                            if name == "copy_from_slice" && m.args.len() == 1 && env.get(&recv).map(|t| t == "[u8]").unwrap_or(false) {
+                                let inner = match &m.args[0] { Expr::Reference(r) => &*r.expr, other => other };
+                                if let Expr::Index(ix) = inner {
+                                    if matches!(&*ix.expr, Expr::Path(p) if p.path.is_ident(buf)) {
+                                        if let Expr::Range(rg) = &*ix.index {
+                                            if rg.start.is_none() && matches!(rg.limits, syn::RangeLimits::HalfOpen(_)) {
+                                                let (n, _) = self.expr(rg.end.as_ref().ok_or("open range")?, env)?;
+                                                let (k, t) = self.stmts(rest, env, ret)?;
+                                                return Ok((format!("(match Rs.slicePrefix {buf} {n} with\n  | none => .panic \"slice\"\n  | some s => if s.length = {recv}.length then (let {recv} := s; {k}) else .panic \"copy_from_slice\")"), t));
+                                            }
+                                        }
+                                    }
+                                }
+                            }
+                            return Err(format!("method statement {name}"));
+                        }
+                        _ => {}
+                    }
+                }
                 match e {
+                    // if c { [buf.reserve(..);] return x; }
+                    Expr::If(i) if i.else_branch.is_none() && !matches!(&*i.cond, Expr::Let(_)) && i.then_branch.stmts.len() == 2 && self.buf.is_some()
+                        && quote::quote!(#i).to_string().contains(". reserve (") => {
+                        let r = match &i.then_branch.stmts[1] { Stmt::Expr(x, _) => Self::returned(x), _ => None }.ok_or("`if` statement that does not return")?;
+                        let (c, _) = self.expr(&i.cond, env)?;
+                        let (v, _) = self.expr(r, env)?;
+                        let (k, t) = self.stmts(rest, env, ret)?;
+                        Ok((format!("(if {c} then {} else\n  {k})", ret(&v)), t))
+                    }
                     // if c { return x; }
                     Expr::If(i) if i.else_branch.is_none() && !matches!(&*i.cond, Expr::Let(_)) && i.then_branch.stmts.len() == 1 => {
                         let r = match &i.then_branch.stmts[0] { Stmt::Expr(x, _) => Self::returned(x), _ => None }.ok_or("`if` statement that does not return")?;
@@ -1895,7 +2015,7 @@ fn collect_local_consts(b: &syn::Block, m: &mut BTreeMap<String, Expr>) {
 fn gen_backoff_fn(repo: &Path, g: &mut Gen) -> FR<()> {
     let rel = "client/src/keep_alive/backoff_strategy.rs";
     let src = Src::load(repo, rel).map_err(|s| s.0)?;
-    let mut tr = FnTr { consts: src.consts(), structs: BTreeMap::new(), enums: BTreeMap::new(), fns: BTreeMap::new(), self_ty: None, self_reads: Default::default() };
+    let mut tr = FnTr { consts: src.consts(), structs: BTreeMap::new(), enums: BTreeMap::new(), fns: BTreeMap::new(), self_ty: None, self_reads: Default::default(), buf: None, externs: BTreeMap::new() };
     let mut free: BTreeMap<String, syn::ItemFn> = BTreeMap::new();
     for it in &src.ast.items {
         match it {
@@ -1960,5 +2080,44 @@ fn gen_backoff_fn(repo: &Path, g: &mut Gen) -> FR<()> {
     let widths: Vec<String> = reads.iter().map(|(n, t)| format!("{n} : {t}")).collect();
     let _ = writeln!(out, "/-- `BackoffStrategyIter::next(&mut self)`: the item and the new value of `self.current_attempt`\n    ({}) -/\ndef next {} : Option NextAttempt × Nat :=\n  {body}", widths.join(", "), ps?.join(" "));
     g.emit_with_imports("BackoffFn", &["SeliumModel.Rs"], &[rel], &format!("open Selium\n\n{out}"));
+    Ok(())
+}
+
+fn gen_codec_fn(repo: &Path, g: &mut Gen) -> FR<()> {
+    let rel = "protocol/src/codec.rs";
+    let src = Src::load(repo, rel).map_err(|s| s.0)?;
+    let mut tr = FnTr { consts: src.consts(), structs: BTreeMap::new(), enums: BTreeMap::new(), fns: BTreeMap::new(), self_ty: None,
+                        self_reads: Default::default(), buf: Some("src".into()), externs: BTreeMap::new() };
+    tr.externs.insert("Frame::try_from".into(), "frameTryFrom".into());
+    let mut out = String::new();
+    // free function validate_payload_length(length: u64) -> Result<(), _>
+    let vp = src.ast.items.iter().find_map(|it| match it { Item::Fn(f) if f.sig.ident == "validate_payload_length" => Some(f), _ => None }).ok_or("fn validate_payload_length not found")?;
+    let mut env = FEnv::new();
+    let mut params = vec![];
+    for a in &vp.sig.inputs {
+        if let syn::FnArg::Typed(pt) = a {
+            let n = match &*pt.pat { Pat::Ident(i) => i.ident.to_string(), _ => return Err("parameter pattern".into()) };
+            let t = ty_str(&pt.ty);
+            if int_bits(&t).is_none() { return Err(format!("validate_payload_length takes a {t}")); }
+            params.push((n.clone(), t.clone()));
+            env.insert(n, t);
+        }
+    }
+    let (body, _) = tr.stmts(&vp.block.stmts, &env, &|v| v.to_string())?;
+    let ps: Vec<String> = params.iter().map(|(n, _)| format!("({n} : Nat)")).collect();
+    let _ = writeln!(out, "/-- `fn validate_payload_length({})` -/\ndef validate_payload_length {} : Rs.Out Unit :=\n  {body}\n",
+        params.iter().map(|(n, t)| format!("{n} : {t}")).collect::<Vec<_>>().join(", "), ps.join(" "));
+    tr.fns.insert("validate_payload_length".into(), (params, "Result<()>".into()));
+    // <MessageCodec as Decoder>::decode(&mut self, src: &mut BytesMut)
+    let dec = find_method(&src.ast, "MessageCodec", "decode", Some("Decoder")).ok_or("`impl Decoder for MessageCodec` has no fn decode")?;
+    let bufname = dec.sig.inputs.iter().find_map(|a| match a { syn::FnArg::Typed(pt) if ty_str(&pt.ty) == "&mutBytesMut" => match &*pt.pat { Pat::Ident(i) => Some(i.ident.to_string()), _ => None }, _ => None })
+        .ok_or("decode has no `&mut BytesMut` parameter")?;
+    if bufname != "src" { tr.buf = Some(bufname.clone()); }
+    let mut env = FEnv::new();
+    env.insert(bufname.clone(), "BytesMut".into());
+    let b2 = bufname.clone();
+    let (body, _) = tr.stmts(&dec.block.stmts, &env, &move |v| format!("(Rs.Out.withState {v} {b2})"))?;
+    let _ = writeln!(out, "/-- `<MessageCodec as Decoder>::decode(&mut self, {bufname}: &mut BytesMut)`: the result and what is left in `{bufname}`.\n    `frameTryFrom` is `Frame::try_from((message_type, bytes))` (modelled in `Wire/Frame.lean` from the generated tables). -/\ndef decode {{F : Type}} (frameTryFrom : Nat → List UInt8 → Rs.Out F) ({bufname} : List UInt8) : Rs.Out (Option F × List UInt8) :=\n  {body}");
+    g.emit_with_imports("CodecFn", &["SeliumModel.Rs"], &[rel], &format!("open Selium\n\n{out}"));
     Ok(())
 }
